@@ -57,6 +57,8 @@ def entry_points(repo):
                 for n, f in c.methods.items():
                     if MUTATORS.match(n):
                         continue
+                    if n.startswith("_") and not (n.startswith("__") and n.endswith("__")):
+                        continue  # private helpers are covered through the public operations that call them
                     for cat, pat in FAMILIES:
                         if re.match(pat, n):
                             model.append((FnKey(c, f, m), cat))
